@@ -647,10 +647,11 @@ def object_ids(val, acc, _depth=0):
 
 
 class Args:
-    __slots__ = ('pos', 'star', 'kw', 'kwstar', 'marker', 'syms', 'names')
+    __slots__ = ('pos', 'star', 'kw', 'kwstar', 'marker', 'syms', 'names', 'kwstar_keys')
 
     def __init__(self, pos=None, star=None, kw=None, kwstar=None, marker=None, syms=None):
         self.names = {}           # position / keyword -> local name the argument was read from
+        self.kwstar_keys = frozenset()   # keywords a **arg may supply (None: unknown)
         self.pos = pos or []
         self.star = star          # AVal of the elements of a *arg of unknown length
         self.kw = kw or {}
@@ -718,6 +719,8 @@ class Interp:
         self.unroll_depth = 0
         self.fn_attrs = {}
         self._rebinds = {}
+        self.last_comp_facts = []
+        self.approx_sites = set()  # constructions whose arguments came from a * / ** expansion of unknown shape
         self.arity_mismatch = {}  # call sites where some callee could not take the arguments
         self.call_edges = {}      # (caller, id(call site node)) -> functions the site was seen to call
         self.ident_counter = 0
@@ -2278,6 +2281,8 @@ class Interp:
                         info['stores'].append((attr, val, node))
                     site = info['site'] if info else node
                     sq = info['qual'] if info else fr.qual
+                    if info and info.get('approx'):
+                        self.approx_sites.add(id(site))
                 else:
                     if not weak:
                         self.mutated_fields.add((cls, attr))
@@ -3111,6 +3116,7 @@ class Interp:
             if i == len(node.generators):
                 try:
                     results.append(tuple(self.eval(fr, e) for e in elts))
+                    state.setdefault('facts', []).append(fr.store.facts - store0.facts)
                 except Unreachable:
                     pass
                 return
@@ -3168,6 +3174,7 @@ class Interp:
                 self.unroll_depth -= 1
         go(0)
         fr.store = store0
+        self.last_comp_facts = state.get('facts', [])
         return state['exact'], results
 
     def ex_ListComp(self, fr, node):
@@ -3192,6 +3199,10 @@ class Interp:
 
     def ex_GeneratorExp(self, fr, node):
         exact, res = self.comprehension(fr, node, [node.elt])
+        facts = self.last_comp_facts
+        if res and len(facts) == len(res) and any(facts) and len(res) <= MAX_DISJUNCTS:
+            # elements selected by conditions that established facts (next(...) picks one of them)
+            return av(('seq', 'list', tuple(r[0] for r in res), ('cfacts', tuple(facts))))
         if exact:
             return av(('seq', 'list', tuple(r[0] for r in res)))
         elem = BOT
@@ -3810,6 +3821,8 @@ class Interp:
                     alts = []
                     for x in seqs:
                         n = Args(list(base.pos), base.star, dict(base.kw), base.kwstar, base.marker, dict(base.syms))
+                        n.kwstar_keys = base.kwstar_keys
+                        n.names = dict(base.names)
                         if n.star is None:
                             n.pos.extend(x[2])
                             if len(x) > 3:
@@ -3859,9 +3872,16 @@ class Interp:
                                 if kk[1] == 'str':
                                     args.kw[kk[2]] = join(args.kw.get(kk[2], BOT), vv)
                         elif x[0] == 'dict':
+                            if not x[2]:
+                                continue
                             args.kwstar = join(args.kwstar or BOT, x[2])
+                            if x[1] is None or x[3] or args.kwstar_keys is None:
+                                args.kwstar_keys = None
+                            else:
+                                args.kwstar_keys = args.kwstar_keys | frozenset(kk[2] for kk in x[1] if kk[1] == 'str')
                         elif x == TOP:
                             args.kwstar = join(args.kwstar or BOT, av(TOP))
+                            args.kwstar_keys = None
                 else:
                     if s_ is not None:
                         args.syms[k.arg] = s_
@@ -3976,6 +3996,7 @@ class Interp:
                 r = self.construct(fr, a[1], args, node)
             elif k == 'partial':
                 merged = Args(list(a[2]) + list(args.pos), args.star, dict(a[3]), args.kwstar, args.marker)
+                merged.kwstar_keys = args.kwstar_keys
                 merged.kw.update(args.kw)
                 for i, sname in args.syms.items():
                     merged.syms[i + len(a[2]) if isinstance(i, int) else i] = sname
@@ -4001,6 +4022,11 @@ class Interp:
                 raise self.err(node, 'call through a value the analysis does not know: {}'.format(unparse(node.func)[:60]))
             elif k == 'ctx' or k == 'super':
                 raise self.err(node, 'call of a context manager / super object')
+            elif k == 'obj' and a[1] in self.classes:
+                c_, q_ = self.find_method(a[1], '__call__')
+                if q_ is None:
+                    continue
+                r = self.call_user(fr, ('fn', q_), args, node, av(a))
             elif a == NONE:
                 continue
             else:
@@ -4070,12 +4096,14 @@ class Interp:
                 kwextra[k] = v
             else:
                 return None, None
+        def kw_may(name):
+            return args.kwstar is not None and (args.kwstar_keys is None or name in args.kwstar_keys)
         for name in names:
             if name not in bound:
                 cand = BOT
                 if args.star is not None:
                     cand = join(cand, args.star)
-                if args.kwstar is not None:
+                if kw_may(name):
                     cand = join(cand, args.kwstar)
                 if name in defaults:
                     cand = join(cand, self.default_value(deffr, defaults[name]))
@@ -4085,7 +4113,7 @@ class Interp:
         for name in kwonly:
             if name not in bound:
                 cand = BOT
-                if args.kwstar is not None:
+                if kw_may(name):
                     cand = join(cand, args.kwstar)
                 if name in kwdefaults:
                     cand = join(cand, self.default_value(deffr, kwdefaults[name]))
@@ -4099,7 +4127,11 @@ class Interp:
                 vals = args.kwstar
                 for v in kwextra.values():
                     vals = join(vals, erase_tags(v))
-                bound[a.kwarg.arg] = av(('dict', None, vals, av(STR_S)))
+                if args.kwstar_keys is not None:
+                    ks = frozenset(const(k) for k in args.kwstar_keys if k not in names and k not in kwonly) | frozenset(const(k) for k in kwextra)
+                    bound[a.kwarg.arg] = av(('dict', ks, vals, BOT))
+                else:
+                    bound[a.kwarg.arg] = av(('dict', None, vals, av(STR_S)))
         return bound, syms
 
     def brand(self, qual, name, val):
@@ -4366,7 +4398,7 @@ class Interp:
             raise self.err(node, 'class {} has a decorator the analysis does not model'.format(cname))
         self.ctor_counter += 1
         n = self.ctor_counter
-        self.ctor_info[n] = {'stores': [], 'site': node, 'qual': fr.qual}
+        self.ctor_info[n] = {'stores': [], 'site': node, 'qual': fr.qual, 'approx': args.star is not None or (args.kwstar is not None and args.kwstar_keys is None)}
         oname = cname
         if self.in_module_init and self.summary_depth == 0 and cname != self.line_class:
             # created exactly once while the module is initialised: the object keeps an identity (its attributes are its own)
@@ -4742,6 +4774,18 @@ class Interp:
                 r = self.call_value(fr, frozenset(a for a in pos[0] if a != NONE), Args([elems]), node)
                 return av(('list', erase_tags(r if name == 'map' else elems)))
             return av(TOP)
+        if name == 'next' and x is not None and len(x) == 1 and next(iter(x))[0] == 'seq' and len(next(iter(x))) > 3 \
+                and next(iter(x))[3] and next(iter(x))[3][0] == 'cfacts':
+            a = next(iter(x))
+            alts = [(e, fs) for e, fs in zip(a[2], a[3][1])]
+            out = BOT
+            for e, _ in alts:
+                out = join(out, e)
+            if len(pos) > 1:
+                alts.append((pos[1], frozenset()))
+                out = join(out, pos[1])
+            fr.call_alts[id(node)] = alts
+            return out
         if name in ('iter', 'next'):
             if x is not None:
                 mode, elems = self.iteration(fr, x, node)
